@@ -10,12 +10,14 @@
    reader is a *bytes.Reader): values are taken with RlpSpec.split (= readKind +
    size checks + the canonical single-byte check of Bytes/uint/decodeByteArray);
    `rlp:"tail"` RawValues use Stream.Raw, which does NOT make that last check. *)
-From AQ Require Import Lib.Bytes Rlp.RlpSpec.
+From AQ Require Import Lib.Bytes Rlp.RlpSpec Generated.GenParamsNet.
 Local Open Scope N_scope.
 
-Definition mac_size : N := 32.
-Definition sig_size : N := 65.
-Definition head_size : N := 97.
+(* from the translator; the slices below use the documented literals 32 / 65 / 97, pinned to
+   these by C17_net_params_pinned *)
+Definition mac_size : N := Eval compute in g_mac_size.
+Definition sig_size : N := Eval compute in g_sig_size.
+Definition head_size : N := Eval compute in g_head_size.
 
 Record endpoint := mk_endpoint { ep_ip : bytes; ep_udp : N; ep_tcp : N }.
 Record rpc_node := mk_node { nd_ip : bytes; nd_udp : N; nd_tcp : N; nd_id : bytes }.
@@ -169,7 +171,8 @@ Inductive dres :=
 | DBadSig                           (* recoverNodeID failed *)
 | DUnknownType (id : bytes) (t : N)
 | DBadBody (id : bytes) (t : N)     (* rlp error from s.Decode(req) *)
-| DPanic                            (* Go run-time panic: slice bounds out of range *)
+| DTooSmallBody (id : bytes)        (* errPacketTooSmall after authentication: signed data shorter than type byte + tag *)
+| DPanic                            (* Go run-time panic (index / slice bounds out of range) *)
 | DOk (m : dmsg) (id hash : bytes).
 
 Definition aqua_tag : bytes := [x61; x71; x75; x61].  (* "aqua" *)
@@ -206,8 +209,9 @@ Section Discover.
         let t := if netcompat && (b2n t0 <? 133) then (b2n t0 + 133) mod 256 else b2n t0 in
         if (134 <=? t) && (t <=? 137) then
           let x := if netcompat then 0 else 4 in
-          (* sigdata[1+x:] — no length check in the code *)
-          if lenN sigdata <? 1 + x then DPanic
+          (* `if len(sigdata) < 1+x { return nil, fromID, hash, errPacketTooSmall }`
+             (fix: commit f90a10c; before it sigdata[1+x:] was sliced unchecked) *)
+          if lenN sigdata <? 1 + x then DTooSmallBody id
           else
             match dec_msg t (skipn (N.to_nat (1 + x)) sigdata) with
             | None => DBadBody id t
